@@ -1,7 +1,8 @@
 ------------------------------ MODULE MCTunnel ------------------------------
 EXTENDS Tunnel, Json
 
-CONSTANTS Mode      \* "single": one request, every point;  "pairs": two streams over a reduced domain
+CONSTANTS Mode      \* "single": one request, every point;  "pairs": two streams over a reduced domain;
+                    \* "probe": one multiplexer request x every outcome of the forwarder's credentials probe
 
 --------------------------------------------------------------------------
 (* concrete material the harness uses to materialise a vector *)
@@ -48,8 +49,13 @@ PairAuths == {"absent", "valid1", "wrongPass", "otherScheme"}
 PairReqs == [kind : PairKinds, auth : PairAuths]
 PairOut(k) == IF Dispatch(k) = "tcp" THEN {"ok", "refused"} ELSE {"ok"}
 
+MuxReqs == [kind : MuxKinds, auth : AuthClasses]
+
 MCInit ==
-    IF Mode = "single"
+    IF Mode = "probe"
+      THEN \E c \in Cfgs, r \in MuxReqs : \E o \in Outcomes(r.kind), p \in ProbeOutcomes :
+              InitWithProbe(c, [s \in Streams |-> r], [s \in Streams |-> o], [s \in Streams |-> p])
+    ELSE IF Mode = "single"
       THEN \E c \in Cfgs, r \in SingleReqs : \E o \in Outcomes(r.kind) :
               InitWith(c, [s \in Streams |-> r], [s \in Streams |-> o])
       ELSE \E c \in Cfgs, r1 \in PairReqs, r2 \in PairReqs : \E o1 \in PairOut(r1.kind), o2 \in PairOut(r2.kind) :
@@ -69,7 +75,9 @@ EmitVector ==
                                                                target |-> TargetOf[req[s].kind].target,
                                                                header |-> HeaderOf[req[s].auth],
                                                                outcome |-> out[s],
+                                                               probe |-> probe[s],
+                                                               fwdCreds |-> FwdCreds(req[s].auth, cfg),
                                                                authorised |-> Authorised(req[s].auth, cfg),
-                                                               final |-> SetToSeqJ(FinalSet(req[s].kind, req[s].auth, cfg, out[s])) ]],
+                                                               final |-> SetToSeqJ(FinalSetP(req[s].kind, req[s].auth, cfg, out[s], probe[s])) ]],
                                   silent |-> ~connOpen ]) >>)
 =============================================================================
